@@ -97,6 +97,10 @@ class Check:
                     break
         return res
 
+    def legal(self, sc):
+        """Is this (shrunk) scenario still inside the statement?  The minimiser never keeps a candidate that is not."""
+        return True
+
     def distinct_key(self, sc, res):
         rng = sc["rng"]
         pol = rng.get("mode") if rng.get("mode") != "scripted" else "scripted:" + ",".join(
@@ -179,19 +183,25 @@ def shrink_params(sc):
         c["params"][k] = dflt[k]
         out.append(c)
     for k in ("n", "rounds"):
-        if k in p and p[k] > 100:
+        # a smaller declared budget, but never below the number of rounds driven (T <= n is part of the statements)
+        if k in p and p[k] > max(100, sc["rounds"]):
             c = _c(sc)
-            c["params"][k] = 100
-            if c["rounds"] <= 100 or True:
-                out.append(c)
+            c["params"][k] = max(100, sc["rounds"])
+            if "budget" in c:
+                c["budget"] = c["params"][k]
+            out.append(c)
+    def legal(k, x):
+        # a rounded parameter must stay inside its documented open range
+        return x > 0 and not (k in ("rho", "rhomax", "delta") and x >= 1)
+
     for k, v in p.items():
-        if isinstance(v, float) and k not in dflt and v != round(v, 2) and round(v, 2) > 0:
+        if isinstance(v, float) and k not in dflt and v != round(v, 2) and legal(k, round(v, 2)):
             c = _c(sc)
             c["params"][k] = round(v, 2)
             out.append(c)
     for k in diff:
         v = p[k]
-        if isinstance(v, float) and v != round(v, 2) and round(v, 2) > 0:
+        if isinstance(v, float) and v != round(v, 2) and legal(k, round(v, 2)):
             c = _c(sc)
             c["params"][k] = round(v, 2)
             out.append(c)
@@ -321,11 +331,22 @@ class CheckC01(Check):
         "boxes: |coordinate| <= ~1e6+3, width >= 5e-4; no overflow/denormal exploration",
         "depth-cap provisos: SOO (K^(h_max+1)-1)/(K-1) >= n; StoSOO (h_max+1)*k > n; VROOM any h_max>=1",
         "rewards are finite Python/NumPy reals; time labels 1..T (the documented loop)",
-        "VROOM budgets n <= 128 (tree of K^floor(log2 n) cells is built at construction)",
+        "VROOM budgets n <= 128 (tree of K^floor(log2 n) cells is built at construction), except 2 (quick) / 24 (thorough) runs per batch "
+        "with budgets 1030-1100 driven past round 1024",
     ]
     fault_kinds = ["rng:uniform:lo", "rng:uniform:hi", "rng:uniform:lo+", "rng:uniform:hi-", "uniform-returned-endpoint",
                    "rng:randint:first", "rng:randint:last", "rng:choice:minp", "rng:choice:first", "rng:choice:last"]
     probe_names = []
+
+    def legal(self, sc):
+        return gen.within_c01_provisos(sc)
+
+    long_runs = {"quick": 2, "thorough": 24}
+
+    def generate_indexed(self, i, r, seed, tier):
+        if i % self.chunk == 0 and i // self.chunk < self.long_runs[tier]:
+            return vroom_long(r, seed)
+        return self.generate(r, seed, tier)
 
     def generate(self, r, seed, tier):
         algo = gen.weighted(r, [("T_HOO", 2), ("HCT", 2), ("VHCT", 2), ("POO", 3), ("GPO", 3), ("PCT", 1.5), ("VPCT", 1.5),
@@ -360,6 +381,12 @@ class CheckC01(Check):
                 if algo == "StoSOO":
                     sc["params"]["h_max"] = max(sc["params"].get("h_max", 100), 100)
             sc["rounds"] = r.choice([200, 400, 600])
+            if algo == "StoSOO":
+                # keep the depth cap large enough for the rounds driven (the cap was drawn for the smaller budget)
+                nn = sc["params"]["n"]
+                k = sc["params"].get("k")
+                kk = k if k is not None else math.ceil(nn / (math.log(nn) ** 3))
+                sc["params"]["h_max"] = max(sc["params"]["h_max"], sc["rounds"] // kk + 1)
         if algo == "Zooming" and r.random() < 0.15:
             gen.zooming_deep(r, sc, seed)
         if algo != "VROOM" and sc["meta"].get("known") is None and r.random() < 0.3:
@@ -439,6 +466,17 @@ class CheckC03(CheckC02):
         elif algo == "Zooming" and r.random() < 0.4:
             gen.zooming_deep(r, sc, seed)
         return sc
+
+
+def vroom_long(r, seed):
+    """VROOM with a budget beyond 1024 driven past round 1024 (the only family with VROOM budgets above 128: one such run costs
+    20-50 s, so there are two per quick batch and a few dozen per thorough batch)."""
+    n = r.choice([1030, 1040, 1100])
+    d = r.choice([1, 1, 2])
+    return {"algo": "VROOM", "params": {"n": n, "h_max": r.choice([8, 10, 12, 100]), "b": gen.loguniform(r, 0.1, 2), "f_max": gen.loguniform(r, 0.5, 5)},
+            "partition": dict(r.choice(gen.PARTS_BINARY_CHILD)), "domain": [gen.gen_side(r) for _ in range(d)], "budget": n,
+            "rounds": r.choice([1027, 1030]), "rewards": gen.gen_rewards(r, ["unit", "gauss", "fewlevels", "int", "obj"], seed),
+            "rng": gen.gen_rng(r, seed, 0.3), "schedule": [], "meta": {"c01_proviso": True, "known": None, "long": True}}
 
 
 def big_int_rewards(r, sc):
@@ -535,7 +573,9 @@ class CheckC04(Check):
 class CheckC05(Check):
     prop = "C05"
     design_ref = "DESIGN.md 5.5"
-    oracles = (Ledger, C05, C06)
+    # each of C05 / C06 arms only its own oracle (plus the ledger): with both armed, a change that breaks both ends every
+    # run of one check in the other's verdict ("foreign") before its own clause can be reached
+    oracles = (Ledger, C05)
     judged = {"C05"}
     sizes = {"quick": 4000, "thorough": 60000}
     chunk = 12
@@ -564,13 +604,28 @@ class CheckC05(Check):
             # parameter corner where thresholds are small and trees grow fast
             sc["params"]["c"] = gen.loguniform(r, 0.02, 0.2)
             sc["params"]["nu"] = gen.loguniform(r, 0.5, 5)
+        if algo in ("HCT", "VHCT", "T_HOO") and r.random() < (0.012 if tier == "quick" else 0.05):
+            # long histories: the round counter crosses 1024 and 2048 (refresh epochs, delta-tilde, thresholds of the late epochs)
+            T = r.choice([1100, 1100, 1100, 2100]) if tier == "quick" else r.choice([1100, 2100, 4200])
+            sc["rounds"] = T
+            sc["budget"] = T
+            if algo == "T_HOO":
+                sc["params"]["rounds"] = T
+            else:
+                # thresholds that keep the tree small enough to re-derive every round; the larger ones leave single cells
+                # with more than 1024 pulls
+                sc["params"]["c"] = gen.loguniform(r, 0.08, 5.0)
+            sc["schedule"] = [s for s in sc.get("schedule") or [] if s["after"] <= T]
+            sc["neighbours"] = []
         return sc
 
 
 class CheckC06(CheckC05):
     prop = "C06"
     design_ref = "DESIGN.md 5.6"
+    oracles = (Ledger, C06)
     judged = {"C06"}
+    sizes = {"quick": 5000, "thorough": 80000}
     technique = ("deterministic simulation: growth rule evaluated on shadow state at every expansion and every non-expansion of seeded "
                  "histories")
     level_text = ("every round's expansion decision (both directions) is compared with the published truncation / threshold rule computed "
@@ -712,7 +767,9 @@ class CheckC09(Check):
     def rule(self):
         return ("run indices below (n_hi-n_lo+1)*%d enumerate the schedule table exhaustively: every budget n in the tier's range "
                 "(quick 100..400, thorough 100..3000) x rho_max in %s, base learner cycling with n, full budget T=n, fixed reward program; "
-                "the remaining runs are a seeded swarm over partitions, boxes, parameters, reward programs and T; non-trivial = >= 10 "
+                "of the remaining runs 35%% are schedule probes (budget n up to 200 000, half of them exact multiples of 2N, rho_max on a "
+                "0.01 grid from 0.5 to 0.985, driven for 2L+2 rounds: N shows in the first learner's rho, L in the round of the second "
+                "construction), the others a seeded swarm over partitions, boxes, parameters, reward programs and T; non-trivial = >= 10 "
                 "rounds and >= 2 learners; distinct = (n, rho_max, learner, wrapper) for the table, the usual tuple otherwise" % (
                     len(RHOMAX_GRID), RHOMAX_GRID))
 
@@ -735,7 +792,41 @@ class CheckC09(Check):
             return sc
         return self.generate(r, seed, tier)
 
+    def schedule_probe(self, r, seed, tier):
+        """Short run over the first phase boundary of a (large) budget: N is visible in the first learner's rho, L in the round
+        at which the second learner is built and in the number of validation rounds of phase 1.  Budgets up to 200 000, rho_max on
+        a fine grid; half of the budgets are exact multiples of 2N (where floor(n/2N) sits on an integer)."""
+        from .oracles_tree import gpo_schedule
+        rhomax = r.choice([round(0.5 + 0.01 * k, 2) for k in range(0, 49)] + [0.985, 0.3, 0.4, r.uniform(0.3, 0.985)])
+        k = r.random()
+        if k < 0.35:
+            n = r.randint(100, 3000)
+        elif k < 0.5:
+            n = int(gen.loguniform(r, 3000, 200000))
+        else:
+            n = r.randint(100, 3000) if r.random() < 0.5 else int(gen.loguniform(r, 3000, 60000))
+            for _ in range(4):
+                N, L = gpo_schedule({"rounds": n, "rhomax": rhomax})
+                m = max(1, round(n / (2 * N)))
+                if 2 * N * m == n or 2 * N * m < 100:
+                    break
+                n = 2 * N * m
+        N, L = gpo_schedule({"rounds": n, "rhomax": rhomax})
+        if L == 0:
+            rhomax, n = 0.9, 1000
+            N, L = gpo_schedule({"rounds": n, "rhomax": rhomax})
+        T = min(n, 2 * L + 2, 1500)
+        algo = r.choice(["GPO", "GPO", "GPO", "PCT"])
+        sc = {"algo": algo, "params": {"numax": 1.0, "rhomax": rhomax, "rounds": n}, "partition": {"cls": "BinaryPartition"},
+              "domain": [[0.0, 1.0]], "budget": n, "rounds": T, "rewards": {"kind": "unit", "seed": seed},
+              "rng": {"mode": "scripted", "policy": {}, "seed": seed}, "schedule": [], "meta": {"probe": True}}
+        if algo == "GPO":
+            sc["base"] = r.choice(["T_HOO", "T_HOO", "HCT"])
+        return sc
+
     def generate(self, r, seed, tier):
+        if r.random() < 0.35:
+            return self.schedule_probe(r, seed, tier)
         algo = gen.weighted(r, [("GPO", 3), ("PCT", 1), ("VPCT", 1)])
         n = gen.gen_budget(r, 100, 600)
         sc = gen.base_scenario(r, seed, algo, n=n, ok_only=False, neighbour_prob=0.2, sched_prob=0.2, mid_prob=0.5)
@@ -848,9 +939,17 @@ class CheckC13(Check):
                   "confidence values, the probability vector to be 1/(h*r*C), and the returned point to lie in the designated cell")
     rule = ("VROOM with n <= 128 on binary-child partitions x boxes x depth caps below/at/above the ranking depth x reward programs x "
             "choice policies; non-trivial = >= 10 rounds; distinct = (partition, K, d, reward kind, RNG policy, h_max, leaf-set hash)")
-    assumptions = ["binary-child partitions only (statement); budgets <= 128 because the tree of 2^floor(log2 n) cells is ranked at every pull"]
+    assumptions = ["binary-child partitions only (statement); budgets <= 128 because the tree of 2^floor(log2 n) cells is ranked at every pull, "
+                   "except 2 (quick) / 32 (thorough) runs per batch with budgets 1030-1100 driven past round 1024"]
     fault_kinds = CheckC01.fault_kinds
     probe_names = ["c13-cells-below-ranking-depth", "c13-draw-below-depth-cap"]
+
+    long_runs = {"quick": 2, "thorough": 32}
+
+    def generate_indexed(self, i, r, seed, tier):
+        if i % self.chunk == 0 and i // self.chunk < self.long_runs[tier]:
+            return vroom_long(r, seed)
+        return self.generate(r, seed, tier)
 
     def generate(self, r, seed, tier):
         sc = gen.base_scenario(r, seed, "VROOM", parts=gen.PARTS_BINARY_CHILD, real_prob=0.2, sched_prob=0.25, mid_prob=0.5,
@@ -1071,7 +1170,7 @@ class CheckC15(TwinCheck):
     level_text = ("for every seeded scenario the sequence of pulled points and the recommendation are compared between label conventions "
                   "and between runs with and without scheduler-chosen recommendation queries")
     rule = ("T_HOO/HCT/VHCT/Zooming/POO/GPO/PCT/VPCT/DOO/SOO/SequOOL/VROOM x partitions x boxes x rewards x RNG modes; label variants zero / "
-            "offset 17 / seeded gaps; query variants (first five algorithms) 1..5 queries in a row at scheduler-chosen rounds; non-trivial = "
+            "offset (17, 2, negative, 1e9, 2^31, 2^40; typed int, np.int64 or float) / seeded gaps (also from a negative or a large start); query variants (first five algorithms) 1..5 queries in a row at scheduler-chosen rounds; non-trivial = "
             ">= 10 rounds; distinct = (algorithm, partition, K, d, reward kind, RNG mode, log digest)")
     assumptions = ["StoSOO and StroquOOL read the label and are excluded by the statement"]
     fault_kinds = ["label-skew:zero", "label-skew:offset", "label-skew:gaps", "interject-query"]
@@ -1082,8 +1181,10 @@ class CheckC15(TwinCheck):
         A = _twin_base(r, seed, algo, n=r.choice([100, 128, 200, 300]))
         A["rounds"] = min(A["rounds"], 300)
         T = A["rounds"]
-        variants = [{"labels": {"scheme": "zero"}}, {"labels": {"scheme": "offset", "offset": 17}},
-                    {"labels": {"scheme": "gaps", "seed": seed, "start": r.randint(0, 5), "maxgap": r.choice([2, 5, 1000])}}]
+        variants = [{"labels": {"scheme": "zero"}},
+                    {"labels": {"scheme": "offset", "offset": r.choice([17, 17, 2, -5, -1000, 10 ** 9, 2 ** 31, 2 ** 40]),
+                                "type": r.choice(["int", "int", "np", "float"])}},
+                    {"labels": {"scheme": "gaps", "seed": seed, "start": r.choice([0, 1, 3, 5, -7, 100000]), "maxgap": r.choice([2, 5, 1000])}}]
         r.shuffle(variants)
         variants = variants[: r.randint(1, 3)]
         if algo in self.QUERY_OK:
